@@ -27,6 +27,31 @@ type xMsg struct {
 	Packet string  `json:"packet"`
 	Val    dsl.Val `json:"val"`
 	Suffix string  `json:"suffix,omitempty"` // hex
+	// WireLen: the decoders are given the reference bytes with every length-of field overwritten
+	// by this value (a peer that announces another length); they must return that wire value
+	WireLen *uint64 `json:"wire_len,omitempty"`
+}
+
+// decodeInput is what the DEC command of message i is fed in a mode.
+func decodeInput(p *dsl.Program, m xMsg, rm refMsg, mode int) []byte {
+	b := append([]byte{}, rm.Bytes[mode]...)
+	if m.WireLen == nil {
+		return b
+	}
+	le := p.Opts.Effective().LE
+	for _, lf := range rm.Layout[mode].Leaves {
+		if lf.Kind != "len" {
+			continue
+		}
+		for j := 0; j < lf.Len; j++ {
+			sh := uint(8 * j)
+			if !le {
+				sh = uint(8 * (lf.Len - 1 - j))
+			}
+			b[lf.Off+j] = byte(*m.WireLen >> sh)
+		}
+	}
+	return b
 }
 
 // xCase is a replayable cross-language case.
@@ -204,7 +229,7 @@ func runCase(k xCase, keep bool) *xRun {
 						if sfx == "SELF" {
 							sfx = hex.EncodeToString(x.Ref[i].Bytes[mode])
 						}
-						cmds = append(cmds, xlang.Cmd{Op: "DEC", Packet: m.Packet, Arg: hex.EncodeToString(x.Ref[i].Bytes[mode]) + sfx})
+						cmds = append(cmds, xlang.Cmd{Op: "DEC", Packet: m.Packet, Arg: hex.EncodeToString(decodeInput(p, m, x.Ref[i], mode)) + sfx})
 					}
 				}
 				out, crash := b.Run(cmds)
@@ -401,6 +426,9 @@ func genXCase(rt *rapid.T, cfg dsl.GenCfg, nmsgs int, vc dsl.ValCfg, suffixes bo
 			}
 		}
 		k.Msgs = append(k.Msgs, m)
+	}
+	if rapid.Bool().Draw(rt, "upper_half_payload") {
+		addUpperHalfMessage(rt, &k)
 	}
 	if rapid.IntRange(0, 3).Draw(rt, "respell") == 0 {
 		k.Text, _ = dsl.Render(p, &RapidSpeller{T: rt, Tag: "xsp"}, dsl.RandLayout{T: rt, Label: "xlay"}, dsl.RenderOpts{NoPadRewrites: true})
